@@ -162,11 +162,18 @@ def _work(job):
                 res['k2b'] = {'frames': k2['frames'], 'other': k2['other'], 'inv_frames': k2.get('inv_frames', 0), 'inv_other': k2.get('inv_other', 0)}
                 if k2['mismatch'] and 'soft' not in res:
                     res['soft'] = {'clause': 900, 'frame': k2['mismatch'].get('frame'), 'k2': k2['mismatch'], 'stage': 2}
+    # a property's own additional correspondence between a Coq definition and the real engine's states (soft clause 901)
+    if hasattr(prop, 'extra_corr') and v[0] == 'A' and tr.exc is None and 'soft' not in res:
+        ex = prop.extra_corr(tr, _DRV)
+        if ex:
+            res['extra'] = ex.get('stats')
+            if ex.get('mismatch'):
+                res['soft'] = {'clause': 901, 'frame': ex['mismatch'].get('frame'), 'k2': ex['mismatch']}
     res['nontrivial'] = bool(prop.nontrivial(tr)) and len(tr.frames) >= prop.min_frames
     res['stats'] = prop.stats(tr)
     res['status'] = 'ok'
     bad = v[0] != 'A' or (tr.exc is not None and prop.exc_is_violation)
-    if 'soft' in res and res['soft'].get('clause') == 900:
+    if 'soft' in res and res['soft'].get('clause') in (900, 901):
         res['soft']['cfg'] = cfg
         res['soft']['finding'] = None
         res['soft']['detail'] = res['soft'].get('k2')
@@ -264,19 +271,20 @@ def proof_step(pid, thorough=False):
             out['ok'] = False
             out['log'].append('fewer Print Assumptions outputs (%d) than theorems (%d)' % (closed + n_ax_blocks, len(thms)))
     # statements about the stage-2 engine model live in a file of their own (State2 / Engine2 share names with State / Engine)
-    pf2 = os.path.join(COQ, 'Properties', pid + '_stage2.v')
-    if os.path.exists(pf2):
-        thms2 = re.findall(r'^(?:Theorem|Lemma|Corollary|Example)\s+(\w+)', open(pf2).read(), flags=re.M)
-        out['obligations'] += len(thms2)
-        out['theorems'] = out['theorems'] + ['stage2.' + t for t in thms2]
-        r2 = subprocess.run('timeout 900 coqc %s Properties/%s_stage2.v' % (qflags, pid), shell=True, cwd=COQ, capture_output=True, text=True)
-        txt2 = r2.stdout + r2.stderr
-        closed2 = txt2.count('Closed under the global context')
-        if r2.returncode != 0 or 'Axioms:' in txt2 or closed2 < len(thms2):
-            out['ok'] = False
-            out['broken'] = out.get('broken') or 'Properties/%s_stage2.v' % pid
-            out['log'].append('coqc Properties/%s_stage2.v: rc=%d, %d of %d closed: %s' % (pid, r2.returncode, closed2, len(thms2), txt2[-800:]))
-        out['discharged'] = out.get('discharged', 0) + min(closed2, len(thms2))
+    for suffix in ('_stage2', '_engine'):
+      pf2 = os.path.join(COQ, 'Properties', pid + suffix + '.v')
+      if os.path.exists(pf2):
+          thms2 = re.findall(r'^(?:Theorem|Lemma|Corollary|Example)\s+(\w+)', open(pf2).read(), flags=re.M)
+          out['obligations'] += len(thms2)
+          out['theorems'] = out['theorems'] + [suffix[1:] + '.' + t for t in thms2]
+          r2 = subprocess.run('timeout 900 coqc %s Properties/%s%s.v' % (qflags, pid, suffix), shell=True, cwd=COQ, capture_output=True, text=True)
+          txt2 = r2.stdout + r2.stderr
+          closed2 = txt2.count('Closed under the global context')
+          if r2.returncode != 0 or 'Axioms:' in txt2 or closed2 < len(thms2):
+              out['ok'] = False
+              out['broken'] = out.get('broken') or 'Properties/%s%s.v' % (pid, suffix)
+              out['log'].append('coqc Properties/%s%s.v: rc=%d, %d of %d closed: %s' % (pid, suffix, r2.returncode, closed2, len(thms2), txt2[-800:]))
+          out['discharged'] = out.get('discharged', 0) + min(closed2, len(thms2))
     bad = scan_sources()
     if bad:
         out['ok'] = False
@@ -289,6 +297,7 @@ def proof_step(pid, thorough=False):
             out['ok'] = False
             out['log'].append('coqchk failed')
         out['checker_cmd'] += ' ; coqchk -o CiwV.Properties.%s' % pid
+        pf2 = os.path.join(COQ, 'Properties', pid + '_stage2.v')
         if os.path.exists(pf2):
             r = subprocess.run('timeout 1200 coqchk -silent -o %s CiwV.Properties.%s_stage2' % (qflags, pid), shell=True, cwd=COQ, capture_output=True, text=True)
             out['coqchk_stage2'] = (r.stdout + r.stderr)[-1200:]
@@ -419,6 +428,9 @@ def run_check(pid, tier, seed, replay=None):
         cov['by_region'][reg] = cov['by_region'].get(reg, 0) + 1
         for k2, v2 in (r.get('stats') or {}).items():
             agg_stats[k2] = agg_stats.get(k2, 0) + v2
+        if r.get('extra'):
+            for kk, vv in r['extra'].items():
+                k2tot[kk] = k2tot.get(kk, 0) + vv
         if r.get('k2b'):
             k2tot['stage2_runs'] = k2tot.get('stage2_runs', 0) + 1
             k2tot['stage2_frames'] = k2tot.get('stage2_frames', 0) + r['k2b']['frames']
